@@ -20,7 +20,7 @@ func init() {
 			if tier == "quick" {
 				return 12000
 			}
-			return 300000
+			return 900000
 		},
 		Rule:        "case = one ordered pair (old,new) of trees of one configuration: descendant / ancestor / siblings / unrelated / very different heights / value-only changes / one side never-populated or emptied / identical (cloned or rebuilt) / old == nil, each side left in memory, persisted, reloaded or persisted-then-touched; expected list = merge of the two models; the DiffIter callback sequence and the StartDiff/NextEntry sequence must both equal it exactly (kind, key, old and new value, ascending, once each); for sampled k the callback returns keepGoing=false (exactly k calls, nil error) or an error (exactly k calls, error wraps it); non-trivial = expected diff non-empty AND (heights differ OR unrelated OR a changed value); distinct by (config, both contents)",
 		Assumptions: []string{"both trees share branch factor, node format, key type and store (the property's precondition)"},
